@@ -112,6 +112,8 @@ BODIES = [
     ("templating-fatal", "SELECT a  FROM tbl WHERE a = {{ 1 + }}@N1@\n"),
     ("templating-fatal-block", "SELECT a  FROM tbl\n{% if %}@N1@\n"),
 ]
+# bodies that only the thorough tier runs (variants of a class the quick tier already has)
+THOROUGH_ONLY = {"fixable-two-lines", "fixable+unfixable-layout", "templating+parse+fixable", "templating-fatal-block"}
 SIBLINGS = [("clean", "SELECT b FROM tbl\n"), ("fixable", "SELECT b  FROM tbl\n"), ("unfixable", _RF02.format(c="b") + "\n")]
 MODES = ["none", "noqa-bare", "noqa-error-codes", "noqa-lint-codes", "noqa-all-codes", "ignore-error", "warn-lint", "warn-error",
          "warn-all", "noqa-error+warn-lint", "ignore-error+warn-lint", "noqa-lint+ignore-error"]
@@ -422,7 +424,8 @@ def exit_code_matrix(tier="quick", seed=0):
     t0 = time.time()
     rng = random.Random(seed)
     all_combos = _combos()
-    groups = list(itertools.product(BODIES, MODES))
+    bodies = [b for b in BODIES if tier == "thorough" or b[0] not in THOROUGH_ONLY]
+    groups = list(itertools.product(bodies, MODES))
     tmp = tempfile.mkdtemp(prefix="c22_matrix_")
     tasks = []
     off = rng.randrange(len(all_combos))
@@ -440,7 +443,7 @@ def exit_code_matrix(tier="quick", seed=0):
         if not (is_fmt and not fx):
             _RAW_CACHE[(sib, ign, is_fmt, fx)] = _raw(sib, ign, fmt if is_fmt else None, fix=fx)
     try:
-        with mp.get_context("fork").Pool(6 if tier == "thorough" else 4) as pool:
+        with mp.get_context("fork").Pool(6) as pool:
             results = pool.map(_run_group, tasks, chunksize=1)
     finally:
         shutil.rmtree(tmp, ignore_errors=True)
@@ -480,7 +483,7 @@ def exit_code_matrix(tier="quick", seed=0):
     missing = [k for k in need if classes.get(k, 0) < (2 if tier != "thorough" else 4)]
     assert not missing, f"exit_code_matrix: clauses hardly exercised: {missing} ({classes})"
     return {"name": "cli-exit-code-matrix",
-            "bound": f"{n_groups} generated (file body x suppression mode) pairs out of {len(BODIES)} bodies x {len(MODES)} modes (modes that "
+            "bound": f"{n_groups} generated (file body x suppression mode) pairs out of {len(bodies)} bodies x {len(MODES)} modes (modes that "
                      f"do not apply to a body are skipped), {ev} runs of the real click commands "
                      f"({'full product' if tier == 'thorough' else 'stratified seeded sample: 1 per pair + path/stdin for the delicate classes'} "
                      f"of {len(all_combos)} (command, route, flags) combinations: lint [--nofail] / fix [--FIX-EVEN-UNPARSABLE | --check y] / "
@@ -530,7 +533,7 @@ def usage_matrix(tier="quick", seed=0):
                 if case == "format-with-rules" and command != "format":
                     continue
                 for route in routes:
-                    for more in ([], ["--nofail"]) if command == "lint" else ([],):
+                    for more in ([], ["--nofail"]) if command == "lint" and (tier == "thorough" or case == "nonexistent-path") else ([],):
                         d = tempfile.mkdtemp(prefix="u_", dir=tmp)
                         if cfgtext is not None:
                             _write(os.path.join(d, ".sqlfluff"), cfgtext)
